@@ -35,6 +35,21 @@ class Gen:
             u = "(%s*%s)" % (self.rng.choice(self.prefixes), u)
         return u if e == 1 else "%s**%d" % (u, e)
 
+    def third(self, a):
+        """another spelling of the dimension of `a`, for route checks: every named unit replaced by one of its dimension (prefixed now and
+        then), or `a` itself under a prefix (which forces the factor-by-factor plan instead of a direct path)"""
+        rng = self.rng
+        import re
+        if rng.random() < 0.4:
+            return "(%s*%s)" % (rng.choice(self.prefixes), a)
+        def swap(m):
+            name = m.group(0)
+            u = self.ns.get(name)
+            if name in self.units and rng.random() < 0.8:
+                return rng.choice(self.bydim[u.dimension])
+            return name
+        return re.sub(r"[A-Za-z_][A-Za-z_0-9]*", swap, a)
+
     def pair(self):
         rng = self.rng
         if self.zoo and rng.random() < 0.15:
@@ -71,6 +86,15 @@ class Gen:
                 a, b = "(Second / %s)" % a, "(Second / %s)" % b
             if "Bit" in self.ns and "Byte" in self.ns:
                 return a, b
+        if rng.random() < 0.06:
+            # the same power of two named units of one DERIVED dimension (L**2 -> gal**2, acre**2 -> ft**4 is the next category's job):
+            # the path search reduces such pairs by the gcd of the dimension's exponents, which is larger than the power here
+            ds = [d for d, us in self.bydim.items() if len(us) > 1 and sum(abs(x) for x in d.exponents) > 1]
+            if ds:
+                d = rng.choice(sorted(ds, key=str))
+                u, v = rng.sample(self.bydim[d], 2)
+                e = rng.choice([2, 2, 3, -2])
+                return "(%s**%d)" % (u, e), "(%s**%d)" % (v, e)
         k = rng.choice([1, 1, 2, 2, 3])
         src, dst = [], []
         for _ in range(k):
